@@ -1,7 +1,18 @@
 #include <dsplib/math.h>
 #include <array>
 
+#include "verif-hooks.h"
+
 namespace dsplib {
+
+#ifdef DSPLIB_VERIF
+namespace verif {
+StepState& step_state() {
+    thread_local StepState state;
+    return state;
+}
+}   // namespace verif
+#endif
 
 namespace {
 
@@ -29,6 +40,7 @@ public:
 
     uint32_t next_prime(uint32_t n) noexcept {
         while (current() < n) {
+            DSPLIB_VERIF_STEP();
             next();
         }
         return current();
@@ -41,6 +53,7 @@ public:
 private:
     bool _is_prime(uint32_t n) const noexcept {
         for (auto d : _primes) {
+            DSPLIB_VERIF_STEP();
             if (d * d > n) {
                 break;
             }
@@ -54,6 +67,7 @@ private:
     void _add_primes() noexcept {
         uint32_t val = current() + 2;
         while (!_is_prime(val)) {
+            DSPLIB_VERIF_STEP();
             val += 2;
         }
         _primes.push_back(val);
@@ -74,6 +88,7 @@ arr_int primes(uint32_t n) {
     std::vector<int32_t> res;
     PrimesGenerator gen;
     while (gen.current() <= n) {
+        DSPLIB_VERIF_STEP();
         res.push_back(gen.current());
         gen.next();
     }
@@ -96,6 +111,7 @@ bool isprime(uint32_t n) noexcept {
     PrimesGenerator gen;
     auto d = gen.current();
     while (d * d <= n) {
+        DSPLIB_VERIF_STEP();
         if (n % d == 0) {
             return false;
         }
@@ -114,7 +130,9 @@ arr_int factor(uint32_t n) {
     PrimesGenerator gen;
     uint32_t d = gen.current();
     while (d * d <= n) {
+        DSPLIB_VERIF_STEP();
         while (n % d == 0) {
+            DSPLIB_VERIF_STEP();
             n /= d;
             res.push_back(d);
         }
